@@ -17,8 +17,12 @@ from .core import unparse, loc, stmt_text
 from .abseval import ev, Unknown, Opaque, _BIN
 
 
+class Crash(Unknown):
+    """The interpreted statement indexes a concrete container with a key / position it does not have: on this path the real code raises."""
+
+
 class Interp:
-    def __init__(self, call_hook=None, effect_names=(), budget=20000, resolver=None, depth=0, store_effects=(), attr_hook=None):
+    def __init__(self, call_hook=None, effect_names=(), budget=20000, resolver=None, depth=0, store_effects=(), attr_hook=None, try_normal_path=False):
         """call_hook(call_node, args, env) -> (True, value) | None.  effect_names: callee names whose calls are
         observable effects (recorded with evaluated args)."""
         self.call_hook = call_hook
@@ -30,6 +34,7 @@ class Interp:
         self.store_effects = set(store_effects)   # attribute texts whose assignments are observable effects, recorded in order as ('store', (text, value), node)
         self.depth = depth
         self._seen_calls = set()
+        self.try_normal_path = try_normal_path      # interpret `try` statements along their no-exception path (body, else, finally); handlers are not entered
         self.attr_hook = attr_hook      # attr_hook(base value, attribute name, interp) -> (True, value) | None, for attribute loads whose text is not an environment fact
 
     # ---------------------------------------------------------------- expressions
@@ -95,7 +100,9 @@ class Interp:
             v = ev(node, env, hook)
         except Unknown:
             raise
-        except (TypeError, AttributeError, KeyError, IndexError, ValueError) as ex:
+        except (KeyError, IndexError) as ex:
+            raise Crash('%s raises %s (%s)' % (unparse(node)[:70], type(ex).__name__, loc(node)))
+        except (TypeError, AttributeError, ValueError) as ex:
             raise Unknown('abstract evaluation of %s failed on an uncomputable operand (%s)' % (unparse(node)[:60], type(ex).__name__))
         return v
 
@@ -202,6 +209,18 @@ class Interp:
             base = self.value(fn.value, env)
             if isinstance(base, (list, set)):
                 return (True, base.copy())
+        if isinstance(fn, ast.Attribute) and fn.attr in ('setdefault', 'pop') and 1 <= len(n.args) <= 2 and not n.keywords:
+            try:
+                base = self.value(fn.value, env)
+            except Unknown:
+                base = None
+            if isinstance(base, dict):
+                args = [self.value(a, env) for a in n.args]
+                if fn.attr == 'setdefault':
+                    return (True, base.setdefault(args[0], args[1] if len(args) == 2 else None))
+                if len(args) == 2 or args[0] in base:
+                    return (True, base.pop(*args))
+                raise Unknown('pop of a missing key from a tracked dict (%s)' % loc(n))
         return None
 
     def _inline(self, call, callee, env):
@@ -231,7 +250,7 @@ class Interp:
         missing = [p for p in params if p not in e2]
         if missing:
             raise Unknown('call of %s without a value for %s' % (callee.name, missing))
-        sub = Interp(self.call_hook, self.effect_names, self.budget, self.resolver, self.depth + 1, self.store_effects, self.attr_hook)
+        sub = Interp(self.call_hook, self.effect_names, self.budget, self.resolver, self.depth + 1, self.store_effects, self.attr_hook, self.try_normal_path)
         finals = sub.run(callee.body, e2)
         if len(finals) != 1 or finals[0].get('<forks>'):
             raise Unknown('helper %s does not evaluate on a single path here (forks: %s)' % (callee.name, [f.get('<forks>') for f in finals][:2]))
@@ -373,7 +392,12 @@ class Interp:
                 if e.get('<jump>'):
                     nxt.append(e)
                     continue
-                f, n = self._stmt(st, e)
+                try:
+                    f, n = self._stmt(st, e)
+                except Crash as c:
+                    e['<outcome>'] = 'raise'
+                    e['<crash>'] = str(c)
+                    f, n = [e], []
                 finished.extend(f)
                 nxt.extend(n)
             envs = nxt
@@ -399,6 +423,8 @@ class Interp:
                 if self.call_hook is not None and nm not in self.effect_names:
                     try:
                         handled = self.call_hook(v, e, self)
+                    except Crash:
+                        raise
                     except Unknown:
                         raise
                     if handled is not None:
@@ -408,6 +434,8 @@ class Interp:
                     for a in v.args:
                         try:
                             args.append(self.value(a, e))
+                        except Crash:
+                            raise
                         except Unknown:
                             args.append(Opaque())
                     self.nodes.append(st)
@@ -417,11 +445,15 @@ class Interp:
                 if isinstance(fn, ast.Attribute):
                     try:
                         recv = self.value(fn.value, e)
+                    except Crash:
+                        raise
                     except Unknown:
                         recv = None
                 if isinstance(recv, dict):
                     try:
                         args = [self.value(a, e) for a in v.args]
+                    except Crash:
+                        raise
                     except Unknown:
                         raise Unknown('method call on a tracked dict with uncomputable arguments: %s (%s)' % (unparse(v)[:80], loc(v)))
                     if fn.attr == 'setdefault' and len(args) == 2:
@@ -441,6 +473,8 @@ class Interp:
                     tgt = recv
                     try:
                         args = [self.value(a, e) for a in v.args]
+                    except Crash:
+                        raise
                     except Unknown:
                         args = [Opaque() for a in v.args]
                     if fn.attr == 'append' and isinstance(tgt, list) and len(args) == 1:
@@ -472,6 +506,8 @@ class Interp:
                 return [], [e]
             try:
                 val = self.value(st.value, e)
+            except Crash:
+                raise
             except Unknown:
                 if self._effectful(ast.Expr(value=st.value), e):
                     raise
@@ -485,6 +521,8 @@ class Interp:
                 cur = e.get(st.target.id, Opaque())
                 try:
                     val = self.value(st.value, e)
+                except Crash:
+                    raise
                 except Unknown:
                     val = Opaque()
                 if isinstance(cur, Opaque) or isinstance(val, Opaque):
@@ -514,6 +552,8 @@ class Interp:
         if isinstance(st, ast.For):
             try:
                 seq = self.value(st.iter, e)
+            except Crash:
+                raise
             except Unknown:
                 seq = Opaque()
             if isinstance(seq, dict) or type(seq).__name__ in ('dict_items', 'dict_keys', 'dict_values'):
@@ -573,6 +613,8 @@ class Interp:
         if isinstance(st, ast.Return):
             try:
                 e['<return>'] = self.value(st.value, e) if st.value is not None else None
+            except Crash:
+                raise
             except Unknown:
                 e['<return>'] = Opaque()
             e['<outcome>'] = 'return'
@@ -585,6 +627,11 @@ class Interp:
             return [], [e]
         if isinstance(st, ast.With):
             return self._block(st.body, [e])
+        if isinstance(st, ast.Try) and self.try_normal_path:
+            f1, n1 = self._block(st.body, [e])
+            f2, n2 = self._block(st.orelse, n1) if st.orelse else ([], n1)
+            f3, n3 = self._block(st.finalbody, n2) if st.finalbody else ([], n2)
+            return f1 + f2 + f3, n3
         if isinstance(st, ast.Try):
             if self._effectful(st, e):
                 raise Unknown('try statement with an observable effect: %s (%s)' % (stmt_text(st)[:60], loc(st)))
@@ -593,11 +640,15 @@ class Interp:
             for t in st.targets:
                 try:
                     base = self.value(t.value, e)
+                except Crash:
+                    raise
                 except Unknown:
                     continue
                 if isinstance(base, (list, dict)):
                     try:
                         del base[self.value(t.slice, e)]
+                    except Crash:
+                        raise
                     except Unknown:
                         raise Unknown('deletion from a tracked container with an uncomputable index: %s' % unparse(t))
                     except (KeyError, IndexError):
